@@ -37,12 +37,15 @@ Definition strip_lines_c (ls : list (list srun)) : res (list (list srun)) :=
   if Nat.ltb 0 (length ls) then strip_loop_c (length ls) ls else Ok ls.
 
 (* the previous cue is closed: its last line, when its text is not empty, is the index of the next cue *)
+(* if len(s.Lines) != 0 { index = s.Lines[len(s.Lines)-1].String(); if index != "" { s.Lines = s.Lines[:len(s.Lines)-1] } }
+   [index ls (length ls - 1) 68] does panic on the empty list (nat 0 - 1 = 0 and [index [] 0] is Panic), so site 68 is
+   sound as written; s.Lines[:len-1] is [slice_to_pred] (Kit/Chk.v): Panic 70 on the empty list, as Go's [:-1]. *)
 Definition finalize_c (ls : list (list srun)) : res (list (list srun) * str) :=
   if negb (Nat.eqb (length ls) 0) then
     do lastl <- index ls (length ls - 1) 68;
     match run_texts lastl with
     | [] => do st <- strip_lines_c ls; Ok (st, [])
-    | idx => do ls' <- slice_to ls (length ls - 1) 70; do st <- strip_lines_c ls'; Ok (st, idx)
+    | idx => do ls' <- slice_to_pred ls 70; do st <- strip_lines_c ls'; Ok (st, idx)
     end
   else do st <- strip_lines_c ls; Ok (st, []).
 
@@ -144,12 +147,14 @@ Fixpoint items_bytes_c (k : nat) (l : list sitem) : res str :=
     Ok (itoa (N.of_nat (S k)) ++ [10] ++ format_srt (si_st it) ++ arrow_sp ++ format_srt (si_en it) ++ [10] ++
         body ++ [10] ++ rest)
   end.
-(* c = c[:len(c)-1] *)
+(* if len(s.Items) == 0 { return ErrNoSubtitlesToWrite } ... c = c[:len(c)-1]
+   ([slice_to_pred]: Panic 265 when c is empty; c starts with the BOM, so the site is unreachable even without the
+   guard on Items -- the guard-dropped variant of Proofs/SrtChk.v drops the BOM as well) *)
 Definition write_srt_c (l : list sitem) : res str :=
   if Nat.eqb (length l) 0 then Err ENothingToWrite
   else do body <- items_bytes_c 0 l;
        let c := bom ++ body in
-       slice_to c (length c - 1) 265.
+       slice_to_pred c 265.
 
 (* Subtitles.Items is a []*Item whose elements may be nil: WriteToSRT starts with s.Items = nonNilItems(s.Items)
    (srt.go:236), then proceeds as above on the remaining items *)
